@@ -115,11 +115,12 @@ static std::string corrupt_text(const std::string &t, int v) {
   case 5: r.insert(mid, "."); break;
   case 6: if (!r.empty()) r[r.size() - 1] = ','; else r = ","; break;
   case 7: r.insert(mid, "\n"); break;
+  case 9: r += std::string("\0!!$$", 5); break;                     // a NUL byte (JSON \u0000) and junk after text that decodes on its own: nothing may stop reading at the NUL
   case 8: if (r.size() % 4 == 2) r.resize(r.size() - 1); else if (r.size() % 4 == 3) r.resize(r.size() - 2); else if (r.size() % 4 == 0 && r.size()) r.resize(r.size() - 3); break;   // truncated to length 1 modulo 4
   }
   return r;
 }
-static const int NCORR = 9;
+static const int NCORR = 10;
 static jwk_set_t *load_via(int how, const std::string &doc, jwk_set_t **owner) {
   *owner = nullptr;
   switch (how) {
@@ -180,7 +181,7 @@ static void part_users(Stats &st, const Args &a) {
     std::string hdr = std::string("{\"alg\":\"") + jwt_alg_str(ka.alg) + "\",\"typ\":\"JWT\"}";
     std::string good = ref_token(k, ka.alg, hdr, "{\"sub\":\"c11\",\"n\":12345}"); TokParts tp = split_token(good); if (!tp.ok) continue;
     for (int seg = 0; seg < 3; seg++) for (int v = 0; v < NCORR; v++) {
-      std::string parts[3] = {tp.h, tp.p, tp.s}; std::string bad = corrupt_text(parts[seg], v); if (bad == parts[seg]) continue; parts[seg] = bad;
+      std::string parts[3] = {tp.h, tp.p, tp.s}; std::string bad = corrupt_text(parts[seg], v); if (bad == parts[seg] || v == 9 /* a token is a C string: no NUL inside */) continue; parts[seg] = bad;
       std::string tok = parts[0] + "." + parts[1] + "." + parts[2];
       for (int prov = 0; prov < 2; prov++) {
         if ((int)(idx++ % a.nworkers) != a.worker) continue;
